@@ -29,6 +29,8 @@ var SharedLists = map[string][]string{
 	"L10": {"MPL-2.0+"},
 	"L11": {"MPL-2.0+", "Zlib"},
 	"L12": {"MPL-1.0+", "Zlib"},
+	"L13": {"MPL-2.0-no-copyleft-exception"},
+	"L14": {"MPL-1.1+"},
 	"L7":  {"mit and isc", "licenseref-q", "MIT and ISC", "mit with bison-exception-2.2", "LicenseRef-Q"},
 }
 
@@ -98,6 +100,10 @@ var Alphabet = []Call{
 	// a long list (work that is only split up / batched above a size threshold)
 	{Fn: "ValidateLicenses", List: "L9"},
 	{Fn: "Satisfies", Expr: "MIT AND Zed", List: "L9v"},
+	// one-sided '+' inside each of the two families that list MPL-1.0 / MPL-1.1 (a range comparison that
+	// succeeds in the second family, then a question whose answer depends on which family those ids resolve to)
+	{Fn: "Satisfies", Expr: "MPL-2.0-no-copyleft-exception+", List: "L13"},
+	{Fn: "Satisfies", Expr: "MPL-2.0", List: "L14"},
 }
 
 // instance lists: the slices actually passed (shared between calls that name the same list)
